@@ -186,6 +186,36 @@ func (g *vfC02G) spec(maxNodes int) VfC02Spec {
 		if g.chance(1, 40) {
 			jm[g.pick("rX", "r1", "r2", "r3")] = BuiltInFilterEnd
 		}
+		// near-miss spellings of a DECLARED result as jumpIf key (case variant,
+		// blanks, prefix, extension): only the exact string is declared; the
+		// target is valid, so the key is the only reason to reject the spec
+		keyP := 25
+		if g.adv {
+			keyP = 5
+		}
+		if len(results) > 0 && g.chance(1, keyP) {
+			base := g.pickFrom(results)
+			var key string
+			switch g.r.Intn(6) {
+			case 0:
+				key = "R" + base[1:]
+			case 1:
+				key = base + " "
+			case 2:
+				key = " " + base
+			case 3:
+				key = base[:1]
+			case 4:
+				key = base + base[1:]
+			default:
+				key = "R" + base[1:]
+			}
+			tgt := BuiltInFilterEnd
+			if len(laterU) > 0 && g.chance(2, 3) {
+				tgt = g.pickFrom(laterU)
+			}
+			jm[key] = tgt
+		}
 		if len(jm) > 0 {
 			nd.JumpIf = jm
 		}
@@ -219,8 +249,10 @@ func (g *vfC02G) script(specs ...*VfC02Spec) []string {
 			out = append(out, g.pickFrom(mapped))
 		case k < 98:
 			out = append(out, g.pick("r1", "r2", "r3"))
-		default:
+		case k < 99:
 			out = append(out, "rX")
+		default:
+			out = append(out, g.pick("R1", "R2", "r1 ", " r2", "r"))
 		}
 	}
 	return out
